@@ -495,6 +495,34 @@ theorem manager_returns_stored (as : List MgrAct) (i : Nat) (id : List Char) (ob
           cases h
           exact ⟨db, ir, hf _ _ hfile, hg, hmk⟩
 
+/-- THE PROPERTY THROUGH THE MANAGER, for every history: whatever was written, replaced, removed, created and asked before, the
+    command built with the remote that `get_remote(id)` hands out is the Spec's command (`specCommand`: refusal of exactly the
+    unsupported modes, "off" / toggle rules, clamped temperature, the BEST KEY of the request) for an IR set that some version of the
+    file at that manager's own path held under `id` -/
+theorem manager_command_spec (as : List MgrAct) (i : Nat) (id : List Char) (obj : Nat) (r : Remote) (m : Mgr)
+    (hm : (mgrRun mgrInit as).1.mgrs[i]? = some m)
+    (h : (mgrStep (mgrRun mgrInit as).1 (.get i id)).2 = .remote obj r)
+    (st md : String) (t : Int) (fan sw : String) (cur : Option String)
+    (hmd : md ∈ ["AUTO", "DRY", "FAN", "COOL", "HEAT"]) (hfan : fan ∈ ["LOW", "MEDIUM", "HIGH", "AUTO"]) (ht : -100 ≤ t ∧ t ≤ 100) :
+    ∃ db ir, (m.path, db) ∈ histRun [] as ∧ db.get id = some ir ∧
+      buildCommand r st md t fan sw cur =
+        match specCommand ir.id ir.onOffType (specSet ir) st md t fan sw cur with
+        | .text txt => mkBreezeCommand (payloadHex txt)
+        | .refused => .error .runtimeError
+        | .missing => .error .keyError := by
+  obtain ⟨db, ir, h1, h2, h3⟩ := manager_returns_stored as i id obj r m hm h
+  exact ⟨db, ir, h1, h2, build_spec ir r h3 st md t fan sw cur hmd hfan ht⟩
+
+/-- … and the capabilities it reports are those present in that set -/
+theorem manager_capabilities (as : List MgrAct) (i : Nat) (id : List Char) (obj : Nat) (r : Remote) (m : Mgr)
+    (hm : (mgrRun mgrInit as).1.mgrs[i]? = some m)
+    (h : (mgrStep (mgrRun mgrInit as).1 (.get i id)).2 = .remote obj r) :
+    ∃ db ir, (m.path, db) ∈ histRun [] as ∧ db.get id = some ir ∧
+      r.supportedModes = supportedModes (specSet ir) ∧ (r.minTemp, r.maxTemp) = tempRange (specSet ir) ∧
+      r.onOffType = (ir.onOffType == 1) ∧ r.separatedSwing = separateSwingIds.contains (String.ofList ir.id) ∧ r.remoteId = ir.id := by
+  obtain ⟨db, ir, h1, h2, h3⟩ := manager_returns_stored as i id obj r m hm h
+  exact ⟨db, ir, h1, h2, capabilities ir r h3⟩
+
 /-- the history that separates a per-manager cache from a process-wide one: a file is read by one manager, then REPLACED; the first
     manager keeps handing out the object it built, a manager created afterwards on the same path builds the remote of the new
     content, and a manager on another path is not concerned -/
